@@ -6,7 +6,9 @@ from __future__ import annotations
 
 import abc
 from dataclasses import dataclass
+import decimal
 import math
+import numbers
 import typing as t
 
 from .util import flatten_union_args, is_broadcastable
@@ -207,7 +209,19 @@ NonPositive = adjective_condition(lambda v: v <= 0, 'non-positive')
 """`Condition` indicating value must be non-positive"""
 NonNegative = adjective_condition(lambda v: v >= 0, 'non-negative')
 """`Condition` indicating value must be non-negative"""
-Finite = adjective_condition(lambda v: isinstance(v, int) or math.isfinite(v), 'finite')  # (isfinite() overflows on a huge int)
+
+
+def _is_finite(v: t.Any) -> bool:
+    # exact numbers first: `math.isfinite` goes through `float`, which overflows for a huge int or Fraction
+    # and turns a huge (finite) Decimal into `inf`
+    if isinstance(v, numbers.Rational):
+        return True
+    if isinstance(v, decimal.Decimal):
+        return v.is_finite()
+    return math.isfinite(v)
+
+
+Finite = adjective_condition(_is_finite, 'finite')
 """`Condition` indicating value must be finite"""
 Empty = adjective_condition(lambda v: len(v) == 0, 'empty')
 """`Condition` indicating value must be empty (have no elements)"""
